@@ -202,7 +202,8 @@ func checkC12(c *core.Ctx) {
 		}
 		// one parsed document for all option sets: a formatter that leaves something behind in the document
 		// shows in the next formatting
-		d0, perr := parser.ParseQuery(&ast.Source{Input: src, Name: "q"})
+		// (every fourth document from a source flagged built-in: the flag says nothing about executable documents)
+		d0, perr := parser.ParseQuery(&ast.Source{Input: src, Name: "q", BuiltIn: i%4 == 3})
 		if perr != nil {
 			if i < len(hand) {
 				// a hand-written document is grammatical: if it no longer parses, this check can not do its work
